@@ -88,17 +88,25 @@ def run(R):
         rcfg = cfg_of(res)
         # save: self._old_value = <read of target>;  set: <write of target> = self._value
         saves, sets = [], []
+        slot = None
+
+        def target_read(v):
+            s_ = q.src(v)
+            return s_.startswith("self._target.") or s_.startswith("getattr(self._target")
         for n in rcfg.nodes:
             if n.kind != "stmt":
                 continue
             a = n.ast
-            if isinstance(a, ast.Assign) and any(q.src(t) == "self._old_value" for t in a.targets):
+            if isinstance(a, ast.Assign) and len(a.targets) == 1 and isinstance(a.targets[0], ast.Attribute) and q.dotted(a.targets[0].value) == "self" \
+                    and target_read(a.value):
+                slot = a.targets[0].attr if slot in (None, a.targets[0].attr) else slot
                 saves.append((n, q.src(a.value)))
             elif isinstance(a, ast.Assign) and q.src(a.value) == "self._value" and any(q.src(t).startswith("self._target") for t in a.targets):
                 sets.append((n, q.src(a.targets[0])))
             elif isinstance(a, ast.Expr) and isinstance(a.value, ast.Call) and q.call_name(a.value) == "setattr" and len(a.value.args) == 3 \
                     and q.src(a.value.args[2]) == "self._value":
                 sets.append((n, "getattr(%s, %s)" % (q.src(a.value.args[0]), q.src(a.value.args[1]))))
+        slot_src = "self.%s" % slot
         R.need(saves and sets, "idiom: %s.resume does not save/set in the recognised forms" % cls.qualname)
         site = R.site(res)
         p = rcfg.find_path([rcfg.entry], [rcfg.exit], N, cut_nodes=[n for n, _ in saves])
@@ -127,10 +135,10 @@ def run(R):
             if n.kind != "stmt":
                 continue
             a = n.ast
-            if isinstance(a, ast.Assign) and q.src(a.value) == "self._old_value":
+            if isinstance(a, ast.Assign) and q.src(a.value) == slot_src:
                 rest.append((n, q.src(a.targets[0])))
             elif isinstance(a, ast.Expr) and isinstance(a.value, ast.Call) and q.call_name(a.value) == "setattr" and len(a.value.args) == 3 \
-                    and q.src(a.value.args[2]) == "self._old_value":
+                    and q.src(a.value.args[2]) == slot_src:
                 rest.append((n, "getattr(%s, %s)" % (q.src(a.value.args[0]), q.src(a.value.args[1]))))
         p = pcfg.find_path([pcfg.entry], [pcfg.exit], N, cut_nodes=[n for n, _ in rest])
         R.check(p is None and rest and all(loc == loc_w for _, loc in rest), "C07.SAVE-RESTORE", cls.qualname + ".pause", R.site(pau),
